@@ -196,9 +196,17 @@ def render_chain(ch: list[dict], name: str = "a") -> tuple[str, list[str], bool]
     frames = list(ch)
     keys = ["x"]
     formals = None
-    if frames and frames[0]["kind"] == "formals":
+    call = None
+    if frames and frames[-1]["kind"] == "formals" and frames[-1].get("argn"):
+        call = frames.pop()              # a call closing the chain: `({ a ? 91 }: { x = a; }) s'
+    elif frames and frames[0]["kind"] == "formals":
         formals = frames.pop(0)
-    if frames and frames[-1]["kind"] == "rec":
+    if call is not None:
+        fs = ", ".join(f"{b['n']} ? {b['v']}" if b["v"] else b["n"] for b in call["binds"])
+        # `...': the argument set may have members that are no formals (without it Nix rejects the call)
+        inner = f"({{ {fs}, ... }}: {{ x = {name}; }}) {call['argn']}" if fs else f"({{ ... }}: {{ x = {name}; }}) {call['argn']}"
+        keys = ["<call>", "x"]
+    elif frames and frames[-1]["kind"] == "rec":
         last = frames.pop()
         inner = "rec { " + " ".join(_bind_text(b) for b in last["binds"]) + f" x = {name}; }}"
     else:
@@ -217,6 +225,8 @@ def render_chain(ch: list[dict], name: str = "a") -> tuple[str, list[str], bool]
         else:
             inner = ("rec " if k == "rec" else "") + "{ " + (binds + " " if binds else "") + f"k = {inner}; }}"
             keys.insert(0, "k")
+    if call is not None:
+        editable = False
     # editable by `set k...x' iff no let / with frame sits below a set frame
     below_set = False
     for f in frames:
